@@ -280,7 +280,7 @@ Theorem C17_nlri_roundtrip_core :
 Proof. exact nlri_roundtrip. Qed.
 
 Theorem C17_net_from_api_preserves_wf :
-  forall v6r x n, v6_range v6r -> net_from_api v6r x = Some n -> wf_nlri n.
+  forall v6r x n, v6_range v6r -> api_nlri_in_range x -> net_from_api v6r x = Some n -> wf_nlri n.
 Proof. intros v6r x n. exact (net_from_api_wf (fun _ => []) v6r x n). Qed.
 
 Theorem C17_nlri_encode_safe :
@@ -306,14 +306,15 @@ Proof.
 Qed.
 
 Example nlri_roundtrip_example :
-  wf_nlri (NLab6 [100; 3] 1 128) /\ net_from_api toy_r (nlri_to_api toy_p (NLab6 [100; 3] 1 128)) = Some (NLab6 [100; 3] 1 128).
+  wf_nlri (NVpn6 [100; 3] (RDIp 167772161 7) 1 128)
+  /\ net_from_api toy_r (nlri_to_api toy_p (NVpn6 [100; 3] (RDIp 167772161 7) 1 128)) = Some (NVpn6 [100; 3] (RDIp 167772161 7) 1 128).
 Proof. split; [|vm_compute; reflexivity]. cbn. repeat split; try lia; try discriminate. repeat constructor; lia. Qed.
 
 (* ------------------------------------------------------------------ *)
 (* GrpcService::local_path                                               *)
 Theorem C17_local_path_accepts_wf :
   forall v6r fam n xs family net attrs nh,
-    v6_range v6r -> Forall api_in_range xs ->
+    v6_range v6r -> api_nlri_in_range n -> Forall api_in_range xs ->
     local_path v6r fam n xs = Some (family, net, attrs, nh) ->
     wf_nlri net /\ Forall wf_attr attrs
     /\ existsb (fun a => a_code a =? ORIGIN) attrs = true
